@@ -15,6 +15,7 @@ import json
 from vlib import core
 from checks import transforms_common as tc
 from checks import langchains_common as lc
+from checks import c05_parsers as cp
 
 
 def run(ctx):
@@ -47,28 +48,37 @@ def run(ctx):
             sig = "C05/chain:%s/AllRefsResolve/%s" % (rec["lang"], "+".join(f["dangling"]))
             ctx.fail(sig, "the %s chain leaves dangling %s; input shape %s leaf %s at %s" % (rec["lang"], f["dangling"], rec["shape"], rec["leaf"], rec["pos"]),
                      {"shape": rec["shape"], "leaf": rec["leaf"], "pos": rec["pos"], "lang": rec["lang"]}, key=lc.case_key(rec))
+    # (a)
+    a = cp.run_parsers(ctx)
+    for f in a["fails"]:
+        rec = f["rec"]
+        sig = "C05/parser:%s/%s/%s" % (rec["fmt"], "AllRefsResolve" if f["dangling"] else "Shape", "+".join(f["dangling"] + f["shape"]))
+        ctx.fail(sig, "the %s parser output for catalogue schema %s (%s) has dangling %s %s" % (rec["fmt"], rec["id"], rec["tag"], f["dangling"], f["shape"]),
+                 {"id": rec["id"], "fmt": rec["fmt"], "tag": rec["tag"], "post": rec["post"]}, key="%s|%s" % (rec["fmt"], rec["tag"]))
+    if a["with_refs"] < 10:
+        raise core.Inconclusive("parser part: only %d parsed outputs contain references" % a["with_refs"])
     st = l["stats"]
     ok_runs = st["records"] - sum(v for k, v in st.items() if k.startswith("errors/"))
-    tlc = t["tlc"] + l["tlc"]
+    tlc = t["tlc"] + l["tlc"] + a["tlc"]
     cov = {
         "states": sum(r["distinct"] for r in tlc),
         "transitions": sum(r["generated"] for r in tlc),
-        "traces_validated_against_impl": n_match + l["records"],
+        "traces_validated_against_impl": n_match + l["records"] + a["parsed"],
         "exhaustive": True,
-        "evaluations": n_edges + st["records"],
-        "distinct_nontrivial": nc_edges + ok_runs,
+        "evaluations": n_edges + st["records"] + a["records"],
+        "distinct_nontrivial": nc_edges + ok_runs + a["with_refs"],
         "rule": "evaluations = transformation edges/chains replayed on the real passes + real language-chain runs; non-trivial = "
                 "edges of name-changing transformations or allowed_objects that change the state, and chain runs that returned an IR; "
                 "inputs of both parts resolve by construction (TLC invariants WellFormed / RefsPreserved antecedent)",
         "parts": {"c,d": {"edges": n_edges, "matching_spec": n_match, "name_changing_or_filter_nontrivial": nc_edges,
                           "real_steps_judged_by_tlc": t["trace_records"]},
                   "b": {"chain_runs": st["records"], "returned_ir": ok_runs, "universe": l["consts"]},
-                  "a": "parser outputs: see checks/c05_parsers.py when present"},
+                  "a": {k: a[k] for k in ("records", "parsed", "with_refs", "not_expressible", "errors")}},
         "samples": (l["samples"][:2] + [s for x in t["summaries"] for s in (x["samples"] or [])][:1]) or [{"note": "none"}],
         "checker_cmd": "tlc TransformsMC + worker c15-replay + tlc TransformsTrace; tlc LangChainsMC + worker c06-run + tlc LangChainsTrace",
     }
     return ctx.finish("model_checking", cov, [
         "references into packages that are not loaded are outside the claim",
         "a discriminator-mapping target (a bare name) resolves if an object of that name exists in the package of the enclosing schema or of one of the union's reference branches",
-        "parser outputs (first sentence of C05) are covered by part (a) only when the generated-code catalogue is merged",
+        "parser outputs: catalogue schemas of Semantics.tla in three renderings plus three fixed reference-bearing documents (explicit discriminator mapping, recursion, enum-member constants)",
     ])
